@@ -369,6 +369,10 @@ def main(prop, runner):
     except Inconclusive as e:
         log("INCONCLUSIVE %s: %s" % (prop, e))
         code = 2
+    except Exception:            # a crash of the machinery is never a verdict
+        import traceback
+        log("INCONCLUSIVE %s: internal error\n%s" % (prop, traceback.format_exc()))
+        code = 2
     finally:
         cleanup()
     sys.exit(code)
